@@ -29,7 +29,9 @@ REQUIRED = {"attribute_documents": 5000, "parses_completed": 1000, "ladders_comp
 LEVEL_TEXT = ("Exploration: tens of thousands (quick) to millions (thorough) of generated inputs over the full wikitext "
               "alphabet parsed by the real parse_string under an exception monitor, a result-shape monitor, a "
               "deterministic step-clock hang budget and growth ladders; thorough repeats a slice under an ASan/UBSan "
-              "scanner build.")
+              "scanner build. A sweep of 28 tags x 20 attribute names x 22 values the name does not suggest (and all pairs "
+              "of 33 image options) and template universes whose templates include themselves from inside <ref>/<poem>/"
+              "gallery bodies are part of both tiers.")
 LEVEL_NOTE = "Says nothing about inputs outside the generated set; polynomial growth is judged on ladders up to 8n only."
 TECHNIQUE = "runtime boundary monitors (exception, shape, sys.monitoring step budget, growth ladder) over fuzzed inputs; ASan/UBSan"
 
